@@ -102,6 +102,20 @@ def run(ck: Check):
                     job(f"env-{opts}-exit{c}", code=c, out=b"o\n", use_files=mode,
                         env={"ASAN_OPTIONS": opts, "UBSAN_OPTIONS": opts, "LSAN_OPTIONS": opts})
 
+            # ... nor on what the child PRINTS: reports that look like crashes / sanitizer findings / time-outs on either
+            # stream leave the outcome to the way the child ended
+            TEXTS = [b"==4242==ERROR: AddressSanitizer: heap-use-after-free on address 0x602\nSUMMARY: AddressSanitizer: heap-use-after-free /src/a.c:3 in main\n",
+                     b"SUMMARY: UndefinedBehaviorSanitizer: undefined-behavior x.c:1:2 in \n", b"Assertion failure: false, at js/src/vm/X.cpp:1\n",
+                     b"Traceback (most recent call last):\n  File \"x\", line 1\nSegmentation fault (core dumped)\n",
+                     b"TIMED OUT\nEXCEEDED 120 SECONDS\nCRASHED\nexit status 77\n", b"\xff\x00SUMMARY: ThreadSanitizer: data race\n\x00"]
+            for ti, text in enumerate(TEXTS):
+                for c in (0, 1, 3, 77, 134):
+                    job(f"says{ti}-err-exit{c}", code=c, err=text, out=b"o\n", use_files=mode)
+                    job(f"says{ti}-out-exit{c}", code=c, out=text, err=b"noise\n" * 3, use_files=mode)
+                job(f"says{ti}-sig11", sig=11, err=text, use_files=mode)
+                job(f"says{ti}-many", code=3, err=text, nerr=700, use_files=mode)
+            job("says-then-timeout", sleep=2, limit=0.7, err=TEXTS[0], out=TEXTS[4], use_files=mode)
+
         def do(j):
             idx = jobs.index(j)
             prefix = os.path.join(work, f"log{idx}") if j["use_files"] else None
